@@ -5,7 +5,7 @@
    (exercised by the correspondence runs, not modelled). *)
 From Coq Require Import List ZArith Permutation Sorted.
 Import ListNotations.
-From SedV Require Import Argsort SortRows SedIO SedIOM.
+From SedV Require Import Argsort SortRows SedIO SedIOM ReadFlip.
 
 (* every (wavelength, value) cell comes back, for either supplied order and either requested order *)
 Theorem C12_sed_cells : forall (V : Type) (dV : V) want_wav wav flux, length wav = length flux ->
@@ -19,6 +19,15 @@ Proof. exact cube_cells. Qed.
 (* requesting the other order only reverses the spectral axis, of wavelengths and values together *)
 Theorem C12_order : forall (V : Type) (f : list Z * list V), read V true f = (rev (fst f), rev (snd f)) /\ read V false f = f.
 Proof. exact other_order_reverses. Qed.
+
+(* asking for the other spectral order twice gives back the arrays as stored *)
+Theorem C12_order_twice : forall (V : Type) (f : list Z * list V), read V true (read V true f) = f.
+Proof. exact read_flip_twice. Qed.
+
+(* the other order keeps the pairing: the (wavelength, value) cells are the same cells, listed backwards *)
+Theorem C12_order_cells : forall (V : Type) (f : list Z * list V), length (fst f) = length (snd f) ->
+  combine (fst (read V true f)) (snd (read V true f)) = rev (combine (fst f) (snd f)).
+Proof. exact read_flip_cells. Qed.
 
 (* the file is stored by increasing frequency *)
 Theorem C12_sed_file_order : forall (V : Type) (dV : V) wav flux,
